@@ -290,8 +290,8 @@ class Gen:
             self.pset.add(k)
             self.present.append(k)
 
-    def dele(self):
-        k = self._key(0.15)
+    def dele(self, fresh_p=0.15):
+        k = self._key(fresh_p)
         self.maxkey = max(self.maxkey, k)
         self.emit("D %d" % k)
         if k in self.pset:
@@ -365,7 +365,7 @@ class Gen:
         mode = 1 if (self.keyonly and r.random() < 0.2) else 0
         self.emit("R %d %d" % (brk, mode))
         nseg = r.choice([0, 1, 1, 2, 2, 3, 5])
-        hi = max(2, size + 3)
+        hi = brk if brk else max(2, size + 3)      # nothing runs after the break
         js = sorted(set(r.randint(1, hi) for _ in range(nseg)))
         for j in js:
             self.emit("@ %d" % j)
@@ -405,7 +405,7 @@ def gen_random(rng, profile, kt, vt, length, tag):
             if not phase_up and n <= target // 8:
                 phase_up = True
             x = r.random()
-            if x < 0.03:
+            if x < 0.03 * min(1.0, 80.0 / max(n, 1)):
                 g.loop((50, 20, 20, 3, 0.5, 5, 0), 0, burst=r.choice([0, 8, 16, max(8, n)]) if n < 600 else 0)
             elif x < 0.08:
                 g.emit("R %d %d" % (r.randint(1, 3), 0))      # short loop: often starts while the table is growing
@@ -422,7 +422,7 @@ def gen_random(rng, profile, kt, vt, length, tag):
         # stay just below a growth threshold and replace entries: chains get overflow buckets -> same-size growth
         # (llgo's map.go grows at count+1 > 6*2^B; upstream Go at 6.5*2^B: 6*2^B - {0,1} is below both)
         B = r.choice([2, 3]) if length < 4000 else r.choice([3, 4, 5])
-        size = 6 * (1 << B) - r.choice([0, 1])
+        size = 6 * (1 << B) - r.choice([0, 1, 1])
         g = Gen(r, kt, vt, 1 << 30, nan_budget=0)
         g.emit("M %d" % r.choice([0, size]))
         g.nil = False
@@ -434,11 +434,12 @@ def gen_random(rng, profile, kt, vt, length, tag):
             if x < 0.07:
                 # short loops (cheap, many: some start while a growth is running) and a few complete ones
                 full = r.random() < 0.25
-                g.emit("R %d %d" % (0 if full else r.randint(1, 4), 0))
-                for j in sorted(set(r.randint(1, size if full else 4) for _ in range(r.choice([0, 1, 2])))):
+                brk = 0 if full else r.randint(1, 4)
+                g.emit("R %d %d" % (brk, 0))
+                for j in sorted(set(r.randint(1, size if full else brk) for _ in range(r.choice([0, 1, 2])))):
                     g.emit("@ %d" % j)
                     for _ in range(r.choice([1, 2, 4, 8])):
-                        g.dele()
+                        g.emit("P")
                         g.ins(1.0)
                     if r.random() < 0.3:
                         g.emit("R %d 0" % r.randint(1, 3))
@@ -449,7 +450,7 @@ def gen_random(rng, profile, kt, vt, length, tag):
             elif x < 0.13:
                 g.emit("L")
             else:
-                g.dele()
+                g.emit("P")          # delete whichever entry a loop produces first, insert a new key: count stays
                 g.ins(1.0)
     elif profile == "nan":
         # many NaN entries (each insertion a new entry) among +0/-0/Inf and ordinary keys; values are distinct, so the
@@ -601,6 +602,10 @@ def to_events(sc, log):
             k, p = parse_key(t, 2, dyn)
             e = {"o": "y", "i": int(t[1]), "k": kj(k), "v": 0, "hv": False}
             h = t[p:p + 4]
+        elif c == "PD":
+            k, p = parse_key(t, 2, dyn)
+            e = {"o": "del", "k": kj(k), "r": R.get(t[1], "?")}
+            h = t[p:p + 4]
         elif c == "RE":
             e = {"o": "re", "i": int(t[1]), "done": t[2] == "1"}
             if t[2] == "2":
@@ -706,6 +711,96 @@ def progress(chk, rd, traces):
         if "at" in rec:
             best[rec["id"]] = max(best.get(rec["id"], 0), rec["at"])
     return best
+
+
+def build_plan(rng, thorough):
+    """(profile, key type, value type, length) of every seeded random history"""
+    if thorough:
+        plan = []
+        for kt in range(6):
+            for vt in range(3):
+                for prof in PROFILES:
+                    if prof == "nan" and kt not in (2, 3):
+                        continue
+                    for rep in range(3):
+                        plan.append((prof, kt, vt, rng.choice([60, 150, 400, 900, 1500, 3000])))
+        for kt in range(6):                      # tens of thousands of keys: B up to 12
+            plan.append(("grow", kt, 1 if kt != 1 else 2, 40000 if kt in (0, 3) else 12000))
+        plan.append(("churn", 0, 1, 12000))
+        plan.append(("churn", 1, 0, 12000))
+    else:
+        plan = []
+        combos = [(kt, vt) for kt in range(6) for vt in range(3)]
+        rng.shuffle(combos)
+        for i, (kt, vt) in enumerate(combos):
+            prof = PROFILES[i % len(PROFILES)]
+            if prof == "nan" and kt not in (2, 3):
+                prof = "mixed"
+            plan.append((prof, kt, vt, rng.choice([50, 120, 300])))
+        for kt in range(6):
+            plan.append(("grow", kt, rng.randrange(3), rng.choice([500, 900])))
+            plan.append(("churn", kt, rng.randrange(3), rng.choice([1200, 1600])))
+            plan.append(("mixed", kt, rng.randrange(3), rng.choice([100, 250])))
+            plan.append(("clearloop", kt, rng.randrange(3), 200))
+        for kt in (2, 3):
+            plan.append(("nan", kt, 1, 400))
+            plan.append(("nan", kt, 0, 150))
+        plan.append(("grow", 0, 1, 3000))
+        plan.append(("grow", 3, 2, 2000))
+    return plan
+
+
+def reached(evlists):
+    """what the recorded histories reached, from the logged header scalars"""
+    cover = {"doubling_growths": 0, "same_size_growths": 0, "max_B": 0, "mutations_inside_range_loops": 0,
+             "loops_started_while_growing": 0, "growths_started_inside_a_loop": 0, "yields_while_growing": 0,
+             "loops_started_during_same_size_growth": 0, "nan_entries_produced_by_loops": 0, "unhashable_panics": 0,
+             "nil_map_write_panics": 0, "max_entries": 0}
+    for ev in evlists:
+        pB, pg, po = None, 0, 0
+        depth = 0
+        same = False
+        for e in ev:
+            o = e["o"]
+            if o == "rs":
+                depth += 1
+                if e["hg"]:
+                    cover["loops_started_while_growing"] += 1
+                    if same:
+                        cover["loops_started_during_same_size_growth"] += 1
+            elif o == "re":
+                depth -= 1
+            elif o == "y":
+                if e["hg"]:
+                    cover["yields_while_growing"] += 1
+                if e["k"]["x"] == "NaN":
+                    cover["nan_entries_produced_by_loops"] += 1
+            elif depth > 0 and o in ("ins", "del", "clear"):
+                cover["mutations_inside_range_loops"] += 1
+            if o in ("ins", "del", "get1", "get2") and e["r"] == "panic":
+                if e["k"]["ty"] in UNHASHABLE:
+                    cover["unhashable_panics"] += 1
+                elif o == "ins":
+                    cover["nil_map_write_panics"] += 1
+            if e["c"] < 0:
+                pB, pg, po = None, 0, 0
+                continue
+            if o == "ins" and pB is not None:
+                started = False
+                if e["hB"] > pB:
+                    cover["doubling_growths"] += 1
+                    started, same = True, False
+                elif e["hB"] == pB and ((e["hg"] and not pg) or e["ho"] < po):
+                    cover["same_size_growths"] += 1
+                    started, same = True, True
+                if started and depth > 0:
+                    cover["growths_started_inside_a_loop"] += 1
+            if not e["hg"]:
+                same = False
+            cover["max_B"] = max(cover["max_B"], e["hB"])
+            cover["max_entries"] = max(cover["max_entries"], e["c"])
+            pB, pg, po = e["hB"], e["hg"], e["ho"]
+    return cover
 
 
 # --------------------------------------------------------------------------- the check
@@ -818,38 +913,7 @@ def check(chk):
     n_exh = len(scripts)
 
     # ---- scripts: seeded random histories
-    if thorough:
-        plan = []
-        for kt in range(6):
-            for vt in range(3):
-                for prof in PROFILES:
-                    if prof == "nan" and kt not in (2, 3):
-                        continue
-                    for rep in range(3):
-                        plan.append((prof, kt, vt, rng.choice([60, 150, 400, 900, 1500, 3000])))
-        for kt in range(6):                      # tens of thousands of keys: B up to 12
-            plan.append(("grow", kt, 1 if kt != 1 else 2, 40000 if kt in (0, 3) else 12000))
-        plan.append(("churn", 0, 1, 12000))
-        plan.append(("churn", 1, 0, 12000))
-    else:
-        plan = []
-        combos = [(kt, vt) for kt in range(6) for vt in range(3)]
-        rng.shuffle(combos)
-        for i, (kt, vt) in enumerate(combos):
-            prof = PROFILES[i % len(PROFILES)]
-            if prof == "nan" and kt not in (2, 3):
-                prof = "mixed"
-            plan.append((prof, kt, vt, rng.choice([50, 120, 300])))
-        for kt in range(6):
-            plan.append(("grow", kt, rng.randrange(3), rng.choice([500, 900])))
-            plan.append(("churn", kt, rng.randrange(3), rng.choice([1200, 1600])))
-            plan.append(("mixed", kt, rng.randrange(3), rng.choice([100, 250])))
-            plan.append(("clearloop", kt, rng.randrange(3), 200))
-        for kt in (2, 3):
-            plan.append(("nan", kt, 1, 400))
-            plan.append(("nan", kt, 0, 150))
-        plan.append(("grow", 0, 1, 3000))
-        plan.append(("grow", 3, 2, 2000))
+    plan = build_plan(rng, thorough)
     for i, (prof, kt, vt, ln) in enumerate(plan):
         scripts.append(gen_random(random.Random(sd * 7919 + i), prof, kt, vt, ln, "seed%d.%d.%d" % (sd, i, ln)))
     for i, sc in enumerate(scripts):
@@ -1057,55 +1121,7 @@ def check(chk):
 
     # ---- evidence: what the histories reached (from the logged header scalars)
     evs = sum(len(t["ev"]) for t in traces[:n_impl])
-    cover = {"doubling_growths": 0, "same_size_growths": 0, "max_B": 0, "mutations_inside_range_loops": 0,
-             "loops_started_while_growing": 0, "growths_started_inside_a_loop": 0, "yields_while_growing": 0,
-             "loops_started_during_same_size_growth": 0, "nan_entries_produced_by_loops": 0, "unhashable_panics": 0,
-             "nil_map_write_panics": 0, "max_entries": 0}
-    for tid in range(1, n_impl + 1):
-        ev = src[tid][2]
-        pB, pg, po = None, 0, 0
-        depth = 0
-        same = False
-        for e in ev:
-            o = e["o"]
-            if o == "rs":
-                depth += 1
-                if e["hg"]:
-                    cover["loops_started_while_growing"] += 1
-                    if same:
-                        cover["loops_started_during_same_size_growth"] += 1
-            elif o == "re":
-                depth -= 1
-            elif o == "y":
-                if e["hg"]:
-                    cover["yields_while_growing"] += 1
-                if e["k"]["x"] == "NaN":
-                    cover["nan_entries_produced_by_loops"] += 1
-            elif depth > 0 and o in ("ins", "del", "clear"):
-                cover["mutations_inside_range_loops"] += 1
-            if o in ("ins", "del", "get1", "get2") and e["r"] == "panic":
-                if e["k"]["ty"] in UNHASHABLE:
-                    cover["unhashable_panics"] += 1
-                elif o == "ins":
-                    cover["nil_map_write_panics"] += 1
-            if e["c"] < 0:
-                pB, pg, po = None, 0, 0
-                continue
-            if o == "ins" and pB is not None:
-                started = False
-                if e["hB"] > pB:
-                    cover["doubling_growths"] += 1
-                    started, same = True, False
-                elif e["hB"] == pB and ((e["hg"] and not pg) or e["ho"] < po):
-                    cover["same_size_growths"] += 1
-                    started, same = True, True
-                if started and depth > 0:
-                    cover["growths_started_inside_a_loop"] += 1
-            if not e["hg"]:
-                same = False
-            cover["max_B"] = max(cover["max_B"], e["hB"])
-            cover["max_entries"] = max(cover["max_entries"], e["c"])
-            pB, pg, po = e["hB"], e["hg"], e["ho"]
+    cover = reached([src[tid][2] for tid in range(1, n_impl + 1)])
     must = ["doubling_growths", "same_size_growths", "mutations_inside_range_loops", "loops_started_while_growing",
             "growths_started_inside_a_loop", "yields_while_growing", "nan_entries_produced_by_loops", "unhashable_panics",
             "nil_map_write_panics"]
